@@ -153,8 +153,9 @@ func (r *BinaryCopyReader) Read(ctx context.Context) (_ []any, err error) {
 		return nil, ctx.Err()
 	}
 
-	// NOTE: read the next chunk from the copy-in stream if the current chunk is empty.
-	if len(r.reader.Msg) == 0 {
+	// NOTE: read the next chunk from the copy-in stream if the current chunk is
+	// empty. A chunk could be empty again once its header has been consumed.
+	for len(r.reader.Msg) == 0 {
 		err = r.reader.Read()
 		if err != nil {
 			return nil, err
